@@ -414,3 +414,4 @@ MANIFEST = {
 }
 MANIFEST["text"] += ' Also: every parameter receives its own optimizer-state dict on re-binding (no shared mutable value); the preprocessing parameters recorded for the automatic reload are parameters of preprocess, recorded under their own name, and the recorded object padding is the effective (power-of-two adjusted) padding that was used (R7).'
 MANIFEST["text"] += " R3 also: every way of obtaining a dataset in from_file (the caller's argument, the automatic reload from file_path) passes the restore of the persisted learned scan positions — or the 'nothing persisted' side of the metadata tests — before the dataset is attached (must-pass-through on the CFG; found D26)."
+MANIFEST["text"] += " R6 also: clone's deepcopy starts from an empty memo (a pre-seeded memo shares the mapped sub-models between clone and original)."
